@@ -830,9 +830,15 @@ bool Interp::step(const Step& s, int index)
 void Interp::run()
 {
     W.start(P.ct);
-    for (auto& d : P.domains) W.addDomain(d);
+    for (auto& st : P.steps) if (!st.empty() && st[0] == "strict") W.strictWorld = true;
+    if (getenv("MVH_STRICT_WORLD")) W.strictWorld = true;      // development aid: hunt behind the exclusion
+    for (auto& d : P.domains) {
+        W.addDomain(d);
+        for (int x : d) if (x == 1) R.labels.add("variable_of_size_1");
+    }
     for (auto& f : P.forests) {
-        if (W.addForest(f) < 0) R.labels.add("forest_refused");
+        const int before = W.excludedIdent1;
+        if (W.addForest(f) < 0) R.labels.add(W.excludedIdent1 > before ? "excluded.identity_relation_size1_variable" : "forest_refused");
     }
     for (size_t i = 0; i < P.steps.size(); i++) {
         if (!step(P.steps[i], int(i))) return;
